@@ -305,6 +305,7 @@ var pipeShapes = []pshape{
 	34: {cs: []xclause{xq(qclause{s: bS, p: bP, o: bO})}, okinds: []int{0}, sel: []proj{pS, {binding: "o", op: "count", alias: "n"}}, groupBy: []string{"s"}, limit: 1, prop: "C11"},
 	35: {cs: []xclause{xq(qclause{s: bS, p: bP, o: bO})}, okinds: []int{0}, sel: []proj{pS, {binding: "p"}, pO}, order: []ordKey{{"s", true}}, limit: 1, prop: "C12"},
 	36: {cs: []xclause{xq(qclause{s: bS, p: bP, o: bO})}, okinds: []int{0}, sel: []proj{pS, {binding: "p"}, pO}, limit: 1, prop: "C12"},
+	46: {cs: []xclause{xq(qclause{s: bS, p: bP, o: bO})}, okinds: []int{0}, sel: []proj{pS, {binding: "p"}, pO}, having: "?s = /u<b>", havingRef: func(r rrow) bool { return r["s"].b == 'b' }, limit: 1, prop: "C12"},
 	// ---- LIMIT together with a global time bound over the open clause (the limit is pushed into the driver lookup)
 	44: {cs: []xclause{xq(qclause{s: bS, p: bP, o: bO})}, okinds: []int{0}, temporal: true, sel: []proj{pS, {binding: "p"}, pO}, hasGlobal: true, global: window{2, -1}, limit: 1, prop: "C12"},
 	45: {cs: []xclause{xq(qclause{s: bS, p: bP, o: bO})}, okinds: []int{0}, temporal: true, sel: []proj{pS, {binding: "p"}, pO}, hasGlobal: true, global: window{-1, 2}, limit: 2, prop: "C12x"},
